@@ -607,3 +607,119 @@ def reg_check(prop, tier, seed, work, replay):
 
 for _p in ("C09", "C19", "C20"):
     REGISTRY[_p] = reg_check
+
+
+# ------------------------------------------------------------------ C07 / C15
+def scripts_for(work, binary, seed, runs, sim_num, flags=("-rehydrate", "6")):
+    """engine scripts: seeded random hands (with Rehydrate cut points) + TLC-generated ones"""
+    d = work.sub("scripts")
+    scr = os.path.join(d, "random.scripts")
+    vlib.drive(binary, ["holdem-random", "-runs", runs, "-seed", seed, "-o", os.path.join(d, "random.ndjson"), "-scripts", scr] + list(flags))
+    os.remove(os.path.join(d, "random.ndjson"))
+    simf = os.path.join(d, "sim.scripts")
+    nsim = ec.sim_scripts(work, sim_num, seed, simf, 5000000)
+    both = os.path.join(d, "all.scripts")
+    with open(both, "w") as f:
+        f.write(open(scr).read())
+        f.write(open(simf).read())
+    return both, nsim
+
+
+def line_check(prop, tier, seed, work, replay, module, driver, driver_flags, mc_fn, need, independent, assumptions, explanation):
+    t0 = time.time()
+    binary = vlib.build_harness(work)
+    q = tier == "quick"
+
+    def run_on(scripts_path, d, flags):
+        out = os.path.join(d, "out.ndjson")
+        st = vlib.drive(binary, [driver, "-scripts", scripts_path, "-o", out] + list(flags), timeout=3600)
+        return out, st
+
+    if replay:
+        desc = json.load(open(replay))
+        d = work.sub("replay")
+        sp = os.path.join(d, "s.scripts")
+        open(sp, "w").write(json.dumps(desc["script"]) + "\n")
+        out, _ = run_on(sp, d, driver_flags)
+        r = vlib.validate(work, [out], module, [prop], nchunks=2, heap="3g", independent=independent)
+        if any(x["clause"] == desc["clause"] for x in r["viol"]):
+            print("VIOLATION property=%s replay=%s" % (prop, replay))
+            return 1
+        print("replay of %s: clause %s holds" % (replay, desc["clause"]))
+        return 0
+
+    mcs = mc_fn(work, q)
+    for m in mcs:
+        if not m["ok"]:
+            print("MODEL-NOTE: %s violated in the MODEL (%s): not a verdict (R1)" % (prop, m["violated"]))
+    scripts, nsim = scripts_for(work, binary, seed, 260 if q else 6000, 60 if q else 1500)
+    d = work.sub("lines")
+    out, st = run_on(scripts, d, driver_flags)
+    res = vlib.validate(work, [out], module, [prop], nchunks=max(4, vlib.NCPU // 2), heap="3g", independent=independent, timeout=3600)
+    log("[val] %d lines, %d failed clauses, %d drift, %.0fs" % (res["lines"], len(res["viol"]), len(res["drift"]), res["tlc_s"]))
+
+    def sig(v, line, rs):
+        return "%s|op=%s" % (v["clause"], (line or {}).get("op"))
+
+    def repro(v, line, rs):
+        s = ec.find_script(scripts, line["run"])
+        if s is None:
+            return False, None
+        dd = work.sub("repro")
+        sp = os.path.join(dd, "s.scripts")
+        open(sp, "w").write(json.dumps(s) + "\n")
+        o2, _ = run_on(sp, dd, driver_flags)
+        r = vlib.validate(work, [o2], module, [prop], nchunks=1, heap="3g", independent=independent)
+        return any(x["clause"] == v["clause"] for x in r["viol"]), dict(kind="script", clause=v["clause"], script=s,
+                                                                          failing_line={k: line[k] for k in line if k in ("op", "seat", "x", "run", "errM", "errJ", "errB", "err")})
+
+    gk = (lambda v: (v["src"], v["srcline"], v["clause"])) if independent else None
+    rc, nviol, known_hit = verdict.judge(prop, tier, seed, res["viol"], sig, repro, group_key=gk)
+    if res["drift"]:
+        print("MODEL-DRIFT: %d recorded lines differ from the precise model; not a verdict" % len(res["drift"]))
+    cnt = res["cnt"]
+    smp = vlib.read_lines(out, 2, 4)
+    samples = [{k: x[k] for k in x if k in ("op", "seat", "x", "errM", "errJ", "errB", "hasB", "inputSame", "rawEqMJ", "rawEqMB", "mode", "err")} for x in smp]
+    coverage = {
+        "states": sum(m["distinct"] for m in mcs), "transitions": sum(m["generated"] for m in mcs),
+        "traces_validated_against_impl": int(st.get("runs", 0)),
+        "samples": samples,
+        "model_checking": mc_summary(mcs),
+        "real_lines_validated": res["lines"], "driver": st, "tlc_scripts": nsim,
+        "antecedents_exercised_on_real_code": cnt,
+        "model_drift_lines": len(res["drift"]), "known_findings_hit": known_hit,
+        "failed_clauses": sorted({v["clause"] for v in res["viol"]}),
+        "exhaustive": False, "explanation": explanation,
+    }
+    vlib.write_evidence(prop, tier, seed, coverage, time.time() - t0, nviol, assumptions=assumptions)
+    missing = [a for a in need if cnt.get(a, 0) == 0]
+    if rc == 0 and missing:
+        print("INCONCLUSIVE property=%s never exercised: %s" % (prop, ",".join(missing)))
+        return 2
+    return rc
+
+
+def resume_check(prop, tier, seed, work, replay):
+    def mc(work, q):
+        return [ec.model_check(work, "small" if q else "medium", ["C06"], False)]
+    return line_check(prop, tier, seed, work, replay, "ResumeTrace.tla", "holdem-resume", ["-mode", "both", "-seed", str(seed)], mc,
+                      ["runs.always", "runs.cuts", "backendCalls", "refusedCalls", "handsClosed"], False,
+                      ["complete-state equality is computed by the driver on the JSON encodings (timestamps and game id removed)",
+                       "the backend instance is created with CreateGame and then given the same deck (nothing is dealt before the first ready)"],
+                      "three instances in lock-step (in-memory, re-hydrated from JSON before every call and at scripted cut points, NativeBackend) + a second "
+                      "in-memory run; in the model re-hydration is a stuttering step enabled at every wait point")
+
+
+def views_check(prop, tier, seed, work, replay):
+    def mc(work, q):
+        sc = dict(ec.MC_SCOPES["cmp" if q else "small"])
+        sc.update(Props="{}", TrackHist="FALSE", RecordOut="TRUE")
+        return [generic_mc(work, "MCViews.tla", "mcviews", sc, invariants=["ViewsOK"], view="CmpView")]
+    return line_check(prop, tier, seed, work, replay, "ViewTrace.tla", "holdem-views", ["-every", "2" if tier == "quick" else "1"], mc,
+                      ["open", "closed", "closedWithFolded", "withBoard"], True,
+                      ["views are taken on JSON clones of the recorded state", "the leak scan looks for the 52 card symbols anywhere in the view's JSON"],
+                      "every recorded state x (N seats + observer): TLC compares the view with the full state field by field and checks every card symbol found in the view's JSON")
+
+
+REGISTRY["C07"] = resume_check
+REGISTRY["C15"] = views_check
